@@ -90,8 +90,8 @@ def execute(case: Dict[str, Any], M: Optional[Model] = None, built: Any = None, 
     R = prog.Ref(failing=case.get("failing", ()), selected=M.selected, run_debug=bool(case.get("debug")), pre=pre)
     try:
         out.ref_value = prog.ref_run(P, args, R)
-    except (sched.InjectedError, prog.MissingArg, prog.RefError) as e:
-        out.ref_exc = e
+    except (sched.InjectedError, prog.MissingArg, prog.RefError, KeyError, IndexError) as e:
+        out.ref_exc = e  # KeyError / IndexError: the program indexes a result with a key it does not have
     out.ref = R
     import tawazi
 
@@ -139,7 +139,13 @@ def execute(case: Dict[str, Any], M: Optional[Model] = None, built: Any = None, 
         try:
             with ex:
                 if case.get("async"):
-                    out.value = asyncio.run(target(*args))
+                    async def main() -> Any:
+                        if case.get("small_loop_pool"):
+                            # the user's loop has a tiny default executor: tawazi has its own pool, so this must not matter
+                            asyncio.get_running_loop().set_default_executor(sched.CtlPool(max_workers=1))
+                        return await target(*args)
+
+                    out.value = asyncio.run(main())
                 else:
                     out.value = target(*args)
         except BaseException as e:  # noqa: BLE001
